@@ -327,7 +327,14 @@ pub fn gen_conv(r: &mut Rng, k: u64) -> OpCase {
 pub fn gen_large(r: &mut Rng, k: u64) -> OpCase {
     match k % 4 {
         0 => {
-            let (m, kk, n) = (r.range(5, 12), r.range(5, 12), r.range(5, 12));
+            let (mut m, mut kk, mut n) = (r.range(5, 12), r.range(5, 12), r.range(5, 12));
+            // now and then one of the three sizes crosses a block size of 16 / 32 / 64
+            match r.below(8) {
+                0 => m = *r.pick(&[16, 17, 31, 33, 64, 65]),
+                1 => kk = *r.pick(&[16, 17, 31, 33, 64, 65]),
+                2 => n = *r.pick(&[16, 17, 31, 33, 64, 65]),
+                _ => {}
+            }
             let (ta, tb) = (r.chance(1, 2), r.chance(1, 2));
             let lead: Vec<usize> = if r.chance(1, 3) { vec![2] } else { vec![] };
             let mut da = lead.clone();
@@ -354,14 +361,14 @@ pub fn gen_large(r: &mut Rng, k: u64) -> OpCase {
             OpCase { kind: OpKind::Conv { sr, sc }, dims: vec![di, df], vals, mask: mask_of(2, r.below(3)), cell: "large|conv".into() }
         }
         2 => {
-            let n = r.range(17, 40);
+            let n = super::shapes::long_dim(r).max(17);
             let d = if r.chance(1, 2) { vec![2, n] } else { vec![n] };
             let kk = r.range(1, d.len());
             let vals = vec![rand_ints(r, numel(&d), -4, 4)];
             OpCase { kind: OpKind::Sum(kk), dims: vec![d], vals, mask: vec![true], cell: "large|sum".into() }
         }
         _ => {
-            let n = r.range(17, 40);
+            let n = super::shapes::long_dim(r).max(17);
             let full = vec![r.range(1, 3), n];
             let db = if r.chance(1, 2) { vec![n] } else { vec![full[0], 1] };
             let kind = [OpKind::Add, OpKind::Mul, OpKind::Sub, OpKind::Axpy(-2.0)][r.below(4)].clone();
@@ -382,10 +389,20 @@ pub fn gen_case(fam: &str, k: u64, r: &mut Rng) -> Option<OpCase> {
 }
 
 pub fn run_case(ctx: &mut Ctx, fam: &str, k: u64, r: &mut Rng) {
-    let case = match gen_case(fam, k, r) {
+    let mut case = match gen_case(fam, k, r) {
         Some(c) => c,
         None => return,
     };
+    // now and then one operand with structure a value-dependent shortcut could key on (inside the operation's domain)
+    if r.chance(1, 8) {
+        let i = r.below(case.dims.len());
+        let needs_positive = matches!((&case.kind, i), (OpKind::Div, 1) | (OpKind::Ln, 0) | (OpKind::Recip, 0) | (OpKind::Powf(_), 0));
+        let v = special_values(r, &case.dims[i]);
+        if !needs_positive || v.iter().all(|x| *x > 0.0) {
+            case.vals[i] = v;
+            case.cell = format!("{}|special-values", case.cell.split('|').next().unwrap_or(""));
+        }
+    }
     let p = case.program();
     let out_n = match eval_ref_plain(&p) {
         Some(rr) => rr.vals[p.root()].v.len(),
